@@ -49,6 +49,14 @@ class ExecutionPlanner:
             lt = stack.pop()
 
             if lt.state == LoweringState.FIRST_VISIT:
+                if lt.task.identifier in visited:
+                    # This task was pushed as a dependency of a sibling before
+                    # it was reached (and fully lowered) through another path.
+                    # Share that lowering's operations instead of lowering
+                    # (and running) the task a second time.
+                    lt.output_ops = visited[lt.task.identifier].output_ops
+                    continue
+
                 # First visit to this task.
                 visited[lt.task.identifier] = lt
 
